@@ -496,6 +496,36 @@ func stringTaggedKeys(rt reflect.Type, out map[string]bool, seen map[reflect.Typ
 	}
 }
 
+// dynStringTaggedKeys does the same for the struct types of the values interfaces hold.
+func dynStringTaggedKeys(v reflect.Value, out map[string]bool, depth int) {
+	if depth > 40 || !v.IsValid() {
+		return
+	}
+	switch v.Kind() {
+	case reflect.Interface:
+		if !v.IsNil() {
+			stringTaggedKeys(v.Elem().Type(), out, map[reflect.Type]bool{})
+			dynStringTaggedKeys(v.Elem(), out, depth+1)
+		}
+	case reflect.Ptr:
+		if !v.IsNil() {
+			dynStringTaggedKeys(v.Elem(), out, depth+1)
+		}
+	case reflect.Slice, reflect.Array:
+		for i := 0; i < v.Len(); i++ {
+			dynStringTaggedKeys(v.Index(i), out, depth+1)
+		}
+	case reflect.Map:
+		for _, k := range v.MapKeys() {
+			dynStringTaggedKeys(v.MapIndex(k), out, depth+1)
+		}
+	case reflect.Struct:
+		for i := 0; i < v.NumField(); i++ {
+			dynStringTaggedKeys(v.Field(i), out, depth+1)
+		}
+	}
+}
+
 // omitExplained: "" when the disagreement of two encoders under OmitNil/OmitEmpty is of the kind the
 // known finding C15-omit-options describes, else why not.
 func omitExplained(c *c15Case, a, b string) string {
@@ -509,6 +539,7 @@ func omitExplained(c *c15Case, a, b string) string {
 	}
 	strKeys := map[string]bool{}
 	stringTaggedKeys(c.d.RT, strKeys, map[reflect.Type]bool{})
+	dynStringTaggedKeys(c.v, strKeys, 0)
 	if pa, pb := pruneEmpty(an, strKeys).String(), pruneEmpty(bn, strKeys).String(); pa != pb {
 		return "the trees differ in more than empty members: " + pa + " / " + pb
 	}
